@@ -13,8 +13,9 @@ property level and in the driver.
                    (a value is simple unless it is a non-empty list / dict); `simpleChunk` is the
                    text of the chunk. The function is total on `Simple`, so the `assert False` of
                    the code is unreachable by construction.
-* `sortE`        — `sorted(keys, key=_mk_type_sort_value)` for string keys: a stable sort by
-                   code-point-lexicographic order (`keyLt`).
+* `sortE`        — `sorted(keys, key=_mk_type_sort_value)`: a stable sort by `kLt` — int keys (by
+                   value), then string keys (code-point-lexicographic, `keyLt`), then `True` /
+                   `False` / `None` keys (by their `str()`). Float and tuple keys are not modelled.
 * `gen`          — `_gen_ch_chunks_for_obj`: the list of chunks, `none` = the new-line marker.
                    Three layouts for a list (one line / wrapped / one item per line), two for a dict.
                    The recursive calls are made on the items in insertion order and the rendered
@@ -32,13 +33,21 @@ inductive Kw where
   | tt | ff | nul
   deriving DecidableEq, Repr
 
+/-- a dict key: a string (the only kind JSON has), or — Python mode only — an int or one of
+`True` / `False` / `None` -/
+inductive Key where
+  | str (s : List Char)
+  | int (n : Int)
+  | kw (k : Kw)
+  deriving DecidableEq, Repr
+
 inductive J where
   | str (s : List Char)
   | int (n : Int)
   | num (t : List Char)
   | kw (k : Kw)
   | list (xs : List J)
-  | dict (kvs : List (List Char × J))
+  | dict (kvs : List (Key × J))
   deriving Repr
 
 /-- `_CONSTANTS_LITERALS[i]` -/
@@ -46,6 +55,9 @@ structure Consts where
   tt : List Char
   ff : List Char
   nul : List Char
+  /-- JSON mode: only strings are keys (the reader refuses other keys; values with other keys are
+  outside the domain of that mode) -/
+  strKeys : Bool
 
 def Consts.lit (c : Consts) : Kw → List Char
   | .tt => c.tt
@@ -107,7 +119,7 @@ def allSimple? : List J → Option (List Simple)
     | _, _ => none
 
 /-- `_all_values_are_simple` for a dict -/
-def allSimpleD? : List (List Char × J) → Option (List (List Char × Simple))
+def allSimpleD? : List (Key × J) → Option (List (Key × Simple))
   | [] => some []
   | (k, v) :: r =>
     match v.simple?, allSimpleD? r with
@@ -141,8 +153,21 @@ def simpleChunk (c : Consts) : Simple → Chunk
   | .emptyList => plain ['[', ']']
   | .emptyDict => plain ['{', '}']
 
-/-- `_dict_key_to_sc_chunk(...).text` for a string key -/
-def keyChunk (k : List Char) : Chunk := ⟨.name, quoted k⟩
+/-- Python's `str()` of `True` / `False` / `None` (what `_dict_key_to_sc_chunk` prints for such a
+key in both modes; it does not consult the keyword table) -/
+def kwStr : Kw → List Char
+  | .tt => ['T', 'r', 'u', 'e']
+  | .ff => ['F', 'a', 'l', 's', 'e']
+  | .nul => ['N', 'o', 'n', 'e']
+
+/-- `'"' + key + '"' if isinstance(key, str) else str(key)` -/
+def keyText : Key → List Char
+  | .str s => quoted s
+  | .int n => showInt n
+  | .kw k => kwStr k
+
+/-- `_dict_key_to_sc_chunk` -/
+def keyChunk (k : Key) : Chunk := ⟨.name, keyText k⟩
 
 def spaces (n : Nat) : List Char := List.replicate n ' '
 
@@ -160,12 +185,26 @@ def keyLt : List Char → List Char → Bool
   | _ :: _, [] => false
   | a :: as, b :: bs => if a = b then keyLt as bs else decide (a.toNat < b.toNat)
 
-/-- stable insertion: `e` goes before the first entry whose key is not smaller -/
-def insertE {α : Type} (e : List Char × α) : List (List Char × α) → List (List Char × α)
-  | [] => [e]
-  | f :: r => if keyLt f.1 e.1 then f :: insertE e r else e :: f :: r
+/-- first component of `_mk_type_sort_value`: numbers, then strings, (then tuples,) then keywords -/
+def Key.rank : Key → Nat
+  | .int _ => 0
+  | .str _ => 1
+  | .kw _ => 3
 
-def sortE {α : Type} : List (List Char × α) → List (List Char × α)
+/-- `_mk_type_sort_value(a) < _mk_type_sort_value(b)`: by rank, then numbers by value, strings by
+code point, keywords by their `str()` -/
+def kLt : Key → Key → Bool
+  | .int a, .int b => decide (a < b)
+  | .str a, .str b => keyLt a b
+  | .kw a, .kw b => keyLt (kwStr a) (kwStr b)
+  | a, b => decide (a.rank < b.rank)
+
+/-- stable insertion: `e` goes before the first entry whose key is not smaller -/
+def insertE {α : Type} (e : Key × α) : List (Key × α) → List (Key × α)
+  | [] => [e]
+  | f :: r => if kLt f.1 e.1 then f :: insertE e r else e :: f :: r
+
+def sortE {α : Type} : List (Key × α) → List (Key × α)
   | [] => []
   | e :: r => insertE e (sortE r)
 
@@ -207,7 +246,7 @@ def wrappedList (L : Limits) (off : Nat) (items : List Chunk) : List (Option Chu
   [some (plain ['[']), none] ++ wrapItems L off items 0 true ++ [some (plain (spaces off ++ [']']))]
 
 /-- a dict entry in the one-line layout: key, `": "`, value -/
-def entryChunks (k : List Char) (val : List (Option Chunk)) : List (Option Chunk) :=
+def entryChunks (k : Key) (val : List (Option Chunk)) : List (Option Chunk) :=
   some (keyChunk k) :: some (plain [':', ' ']) :: val
 
 def optLen : List (Option Chunk) → Nat
@@ -228,8 +267,8 @@ def renderList (c : Consts) (L : Limits) (off : Nat) (xs : List J)
       else wrappedList L off items
     | none => multiLine L '[' ']' off subs
 
-def renderDict (c : Consts) (L : Limits) (off : Nat) (kvs : List (List Char × J))
-    (subs : List (List Char × List (Option Chunk))) : List (Option Chunk) :=
+def renderDict (c : Consts) (L : Limits) (off : Nat) (kvs : List (Key × J))
+    (subs : List (Key × List (Option Chunk))) : List (Option Chunk) :=
   match kvs with
   | [] => [some (simpleChunk c .emptyDict)]
   | _ :: _ =>
@@ -255,7 +294,7 @@ def genList (c : Consts) (L : Limits) : List J → Nat → List (List (Option Ch
   | [], _ => []
   | x :: xs, off => gen c L x off :: genList c L xs off
 def genEntries (c : Consts) (L : Limits) :
-    List (List Char × J) → Nat → List (List Char × List (Option Chunk))
+    List (Key × J) → Nat → List (Key × List (Option Chunk))
   | [], _ => []
   | (k, v) :: r, off => (k, gen c L v off) :: genEntries c L r off
 end
@@ -296,7 +335,7 @@ def norm : J → J
 def normList : List J → List J
   | [] => []
   | x :: xs => norm x :: normList xs
-def normEntries : List (List Char × J) → List (List Char × J)
+def normEntries : List (Key × J) → List (Key × J)
   | [] => []
   | (k, v) :: r => (k, norm v) :: normEntries r
 end
@@ -441,14 +480,28 @@ def lexGo (c : Consts) : LState → List Char → Option (List Tok)
 
 def lex (c : Consts) (cs : List Char) : Option (List Tok) := lexGo c .idle cs
 
+/-- the token a key is read from -/
+def keyTok : Key → Tok
+  | .str s => .str s
+  | .int n => .int n
+  | .kw k => .kw k
+
+/-- the key a token denotes; with `strKeys` (JSON) only strings are keys -/
+def tokKey (strKeys : Bool) : Tok → Option Key
+  | .str s => some (.str s)
+  | .int n => if strKeys then none else some (.int n)
+  | .kw k => if strKeys then none else some (.kw k)
+  | _ => none
+
 /-- the token list without its first token, when that token is `t` -/
 def dropTok (t : Tok) : List Tok → Option (List Tok)
   | [] => none
   | x :: r => if x = t then some r else none
 
 mutual
-/-- recursive descent over tokens; `none` = syntax error (or fuel exhausted: `read` gives enough) -/
-def parseV : Nat → List Tok → Option (J × List Tok)
+/-- recursive descent over tokens; `none` = syntax error (or fuel exhausted: `read` gives enough).
+`sk` = only strings are keys (JSON). -/
+def parseV (sk : Bool) : Nat → List Tok → Option (J × List Tok)
   | 0, _ => none
   | _ + 1, [] => none
   | _ + 1, .str s :: r => some (.str s, r)
@@ -459,14 +512,14 @@ def parseV : Nat → List Tok → Option (J × List Tok)
     match dropTok .rbrack r with
     | some r' => some (.list [], r')
     | none =>
-      match parseItems f r with
+      match parseItems sk f r with
       | some (xs, r') => some (.list xs, r')
       | none => none
   | f + 1, .lbrace :: r =>
     match dropTok .rbrace r with
     | some r' => some (.dict [], r')
     | none =>
-      match parseEntries f r with
+      match parseEntries sk f r with
       | some (kvs, r') => some (.dict kvs, r')
       | none => none
   | _ + 1, .rbrack :: _ => none
@@ -474,39 +527,45 @@ def parseV : Nat → List Tok → Option (J × List Tok)
   | _ + 1, .comma :: _ => none
   | _ + 1, .colon :: _ => none
 /-- `value ("," value)* "]"` -/
-def parseItems : Nat → List Tok → Option (List J × List Tok)
+def parseItems (sk : Bool) : Nat → List Tok → Option (List J × List Tok)
   | 0, _ => none
   | f + 1, ts =>
-    match parseV f ts with
+    match parseV sk f ts with
     | some (v, .comma :: r) =>
-      match parseItems f r with
+      match parseItems sk f r with
       | some (vs, r') => some (v :: vs, r')
       | none => none
     | some (v, .rbrack :: r) => some ([v], r)
     | _ => none
-/-- `string ":" value ("," string ":" value)* "}"` -/
-def parseEntries : Nat → List Tok → Option (List (List Char × J) × List Tok)
+/-- `key ":" value ("," key ":" value)* "}"` -/
+def parseEntries (sk : Bool) : Nat → List Tok → Option (List (Key × J) × List Tok)
   | 0, _ => none
-  | f + 1, .str k :: .colon :: ts =>
-    match parseV f ts with
-    | some (v, .comma :: r) =>
-      match parseEntries f r with
-      | some (kvs, r') => some ((k, v) :: kvs, r')
+  | _ + 1, [] => none
+  | _ + 1, [_] => none
+  | f + 1, t :: t2 :: ts =>
+    if t2 = .colon then
+      match tokKey sk t with
       | none => none
-    | some (v, .rbrace :: r) => some ([(k, v)], r)
-    | _ => none
-  | _ + 1, _ => none
+      | some k =>
+        match parseV sk f ts with
+        | some (v, .comma :: r) =>
+          match parseEntries sk f r with
+          | some (kvs, r') => some ((k, v) :: kvs, r')
+          | none => none
+        | some (v, .rbrace :: r) => some ([(k, v)], r)
+        | _ => none
+    else none
 end
 
-def parse (ts : List Tok) : Option J :=
-  match parseV (ts.length + 1) ts with
+def parse (sk : Bool) (ts : List Tok) : Option J :=
+  match parseV sk (ts.length + 1) ts with
   | some (v, []) => some v
   | _ => none
 
 /-- the reader: text → value -/
 def read (c : Consts) (cs : List Char) : Option J :=
   match lex c cs with
-  | some ts => parse ts
+  | some ts => parse c.strKeys ts
   | none => none
 
 /-! ## canonical token sequence of a value -/
@@ -522,47 +581,55 @@ def toks : J → List Tok
 def toksList : Bool → List J → List Tok
   | _, [] => []
   | first, x :: xs => (if first then [] else [.comma]) ++ toks x ++ toksList false xs
-def toksEntries : Bool → List (List Char × J) → List Tok
+def toksEntries : Bool → List (Key × J) → List Tok
   | _, [] => []
   | first, (k, v) :: r =>
-    (if first then [] else [.comma]) ++ (.str k :: .colon :: toks v) ++ toksEntries false r
+    (if first then [] else [.comma]) ++ (keyTok k :: .colon :: toks v) ++ toksEntries false r
 end
 
 /-! ## domain -/
 
+/-- a key of the domain: a string without quote, backslash, control characters; other keys only
+when the mode has them (Python) -/
+def keyOk (sk : Bool) : Key → Bool
+  | .str s => s.all strOk
+  | .int _ => !sk
+  | .kw _ => !sk
+
 mutual
-/-- the quantifier of C11: strings without quote, backslash, control characters; any int; a float given
-by a text of the JSON number grammar that is not an integer text -/
-def WF : J → Prop
+/-- the quantifier of C11 (`sk` = JSON mode: string keys only): strings without quote, backslash,
+control characters; any int; a float given by a text of the JSON number grammar that is not an
+integer text -/
+def WF (sk : Bool) : J → Prop
   | .str s => s.all strOk = true
   | .int _ => True
   | .num t => numOk t = true ∧ intOf? t = none
   | .kw _ => True
-  | .list xs => WFList xs
-  | .dict kvs => WFEntries kvs
-def WFList : List J → Prop
+  | .list xs => WFList sk xs
+  | .dict kvs => WFEntries sk kvs
+def WFList (sk : Bool) : List J → Prop
   | [] => True
-  | x :: xs => WF x ∧ WFList xs
-def WFEntries : List (List Char × J) → Prop
+  | x :: xs => WF sk x ∧ WFList sk xs
+def WFEntries (sk : Bool) : List (Key × J) → Prop
   | [] => True
-  | (k, v) :: r => k.all strOk = true ∧ WF v ∧ WFEntries r
+  | (k, v) :: r => keyOk sk k = true ∧ WF sk v ∧ WFEntries sk r
 end
 
 mutual
 /-- `WF` as a test: the driver refuses a request whose value is outside the domain (`C11.wf_checked`) -/
-def wfB : J → Bool
+def wfB (sk : Bool) : J → Bool
   | .str s => s.all strOk
   | .int _ => true
   | .num t => numOk t && (intOf? t).isNone
   | .kw _ => true
-  | .list xs => wfBList xs
-  | .dict kvs => wfBEntries kvs
-def wfBList : List J → Bool
+  | .list xs => wfBList sk xs
+  | .dict kvs => wfBEntries sk kvs
+def wfBList (sk : Bool) : List J → Bool
   | [] => true
-  | x :: xs => wfB x && wfBList xs
-def wfBEntries : List (List Char × J) → Bool
+  | x :: xs => wfB sk x && wfBList sk xs
+def wfBEntries (sk : Bool) : List (Key × J) → Bool
   | [] => true
-  | (k, v) :: r => k.all strOk && wfB v && wfBEntries r
+  | (k, v) :: r => keyOk sk k && wfB sk v && wfBEntries sk r
 end
 
 mutual
@@ -573,14 +640,14 @@ inductive Eqv : J → J → Prop
   | num (t : List Char) : Eqv (.num t) (.num t)
   | kw (k : Kw) : Eqv (.kw k) (.kw k)
   | list {xs ys : List J} : EqvL xs ys → Eqv (.list xs) (.list ys)
-  | dict {kvs kvs' kvs'' : List (List Char × J)} :
+  | dict {kvs kvs' kvs'' : List (Key × J)} :
       EqvD kvs kvs' → kvs'.Perm kvs'' → Eqv (.dict kvs) (.dict kvs'')
 inductive EqvL : List J → List J → Prop
   | nil : EqvL [] []
   | cons {x y : J} {xs ys : List J} : Eqv x y → EqvL xs ys → EqvL (x :: xs) (y :: ys)
-inductive EqvD : List (List Char × J) → List (List Char × J) → Prop
+inductive EqvD : List (Key × J) → List (Key × J) → Prop
   | nil : EqvD [] []
-  | cons {k : List Char} {v w : J} {r s : List (List Char × J)} :
+  | cons {k : Key} {v w : J} {r s : List (Key × J)} :
       Eqv v w → EqvD r s → EqvD ((k, v) :: r) ((k, w) :: s)
 end
 
@@ -596,7 +663,7 @@ def DistinctKeys : J → Prop
 def DistinctKeysL : List J → Prop
   | [] => True
   | x :: xs => DistinctKeys x ∧ DistinctKeysL xs
-def DistinctKeysD : List (List Char × J) → Prop
+def DistinctKeysD : List (Key × J) → Prop
   | [] => True
   | (_, v) :: r => DistinctKeys v ∧ DistinctKeysD r
 end
@@ -609,11 +676,11 @@ def KeysSorted : J → Prop
   | .num _ => True
   | .kw _ => True
   | .list xs => KeysSortedL xs
-  | .dict kvs => kvs.Pairwise (fun a b => keyLt a.1 b.1 = true) ∧ KeysSortedD kvs
+  | .dict kvs => kvs.Pairwise (fun a b => kLt a.1 b.1 = true) ∧ KeysSortedD kvs
 def KeysSortedL : List J → Prop
   | [] => True
   | x :: xs => KeysSorted x ∧ KeysSortedL xs
-def KeysSortedD : List (List Char × J) → Prop
+def KeysSortedD : List (Key × J) → Prop
   | [] => True
   | (_, v) :: r => KeysSorted v ∧ KeysSortedD r
 end
@@ -622,12 +689,14 @@ end
 def Consts.ok (c : Consts) : Bool :=
   c.tt.all isLetter && c.ff.all isLetter && c.nul.all isLetter &&
   !c.tt.isEmpty && !c.ff.isEmpty && !c.nul.isEmpty &&
-  decide (c.tt ≠ c.ff) && decide (c.tt ≠ c.nul) && decide (c.ff ≠ c.nul)
+  decide (c.tt ≠ c.ff) && decide (c.tt ≠ c.nul) && decide (c.ff ≠ c.nul) &&
+  -- a mode with keyword keys prints them by `str()`: its literals must be Python's names
+  (c.strKeys || (decide (c.tt = kwStr .tt) && decide (c.ff = kwStr .ff) && decide (c.nul = kwStr .nul)))
 
 /-! ## the tables and numbers of the source (`Gen.C11`, regenerated on every run) -/
 
-def pyConsts : Consts := ⟨Gen.C11.pyTrue, Gen.C11.pyFalse, Gen.C11.pyNone⟩
-def jsonConsts : Consts := ⟨Gen.C11.jsonTrue, Gen.C11.jsonFalse, Gen.C11.jsonNull⟩
+def pyConsts : Consts := ⟨Gen.C11.pyTrue, Gen.C11.pyFalse, Gen.C11.pyNone, false⟩
+def jsonConsts : Consts := ⟨Gen.C11.jsonTrue, Gen.C11.jsonFalse, Gen.C11.jsonNull, true⟩
 def limits : Limits := ⟨Gen.C11.oneLineDict, Gen.C11.oneLineList, Gen.C11.wrapLimit, Gen.C11.indent⟩
 
 end PPrint
